@@ -210,14 +210,18 @@ claim("C24",
       "surviving queue entries after delete() is not stated.")
 
 claim("C23",
-      "Only the '@catch_error handlers are consistent' conjunct of the statement is decided: "
-      "validate_catch_error_handlers is proved to return an empty error list IF AND ONLY IF the handler set is "
-      "consistent (at most one wildcard; every scoped target is a known step, not a handler step, and claimed exactly "
-      "once - also within one handler's own list), for every number of handlers and targets, and "
-      "_collect_catch_error_handlers raises or returns tables that agree with it.",
-      "NOT covered: start/stop event uniqueness, produced/consumed event connectivity, reachability and dead-end "
-      "checks (graph search over a str|type node set needs a transitive-closure argument that was not built), the "
-      "skip-check options and the human-in-the-loop flag. This check must not be read as a proof of C23.",
+      "Three of the statement's conjuncts are decided, for every step set: (1) event connectivity - "
+      "_validate_event_connectivity raises WorkflowValidationError only when some step consumes a StopEvent (sub)class, "
+      "or a consumed event is neither produced nor a boundary event, or a produced event is neither consumed nor an "
+      "output event, and returns only when none of these holds; (2) the human-in-the-loop flag it returns is true iff "
+      "a produced event type is an InputRequiredEvent (sub)class or a consumed one a HumanResponseEvent (sub)class (fix "
+      "3cd0ed0: the flag ignored subclasses); (3) @catch_error consistency - validate_catch_error_handlers returns no "
+      "error iff at most one wildcard exists and every scoped target is a known non-handler step claimed exactly once, "
+      "and _collect_catch_error_handlers raises or returns tables that agree with it.",
+      "NOT covered: exactly-one StartEvent / StopEvent type (_ensure_start_event_class / _ensure_stop_event_class), "
+      "reachability and dead-end checks (graph search over a str|type node set needs a transitive-closure argument "
+      "that was not built) and the per-step / per-workflow skip options. This check must not be read as a proof of all "
+      "of C23.",
       category="other")
 
 claim("C16",
